@@ -35,8 +35,19 @@ class C09(Prop):
 
     def strategy(self, tier):
         from hypothesis import strategies as st
-        return st.tuples(gen_ir.recipes(self.cfg(tier)), st.sampled_from(["DEFAULT", "DEFAULT", "EDIF"])).map(
-            lambda t: dict(t[0], policy=t[1]))
+        from vf import gen_verilog
+
+        api = st.tuples(gen_ir.recipes(self.cfg(tier)), st.sampled_from(["DEFAULT", "DEFAULT", "EDIF"]),
+                        st.booleans()).map(lambda t: dict(t[0], policy=t[1], via_clone=t[2]))
+        ecfg = gen_ir.Cfg(unnamed=False, alphabet=["a", "b", "c", "d", "clk", "data", "q", "sel", "Top",
+                                                   "U1", "n_1", "x y", "a.b", "3d", "net$1", "_u"],
+                          max_defs=6, max_children=4, max_width=3, share=True, top="always",
+                          lib_monotone=True, reorder=False, top_modes=["standalone"], data_values="edif")
+        rd = st.one_of(
+            st.fixed_dictionaries({"kind": st.just("edif"), "design": gen_ir.recipes(ecfg),
+                                   "stream": st.lists(st.integers(0, 63), min_size=8, max_size=20)}),
+            st.fixed_dictionaries({"kind": st.just("verilog"), "design": gen_verilog.designs()}))
+        return st.one_of(api, api, api, st.fixed_dictionaries({"reader": rd, "via_clone": st.booleans()}))
 
     def fixed_cases(self, tier):
         return gen_ir.example_cases(tier)
@@ -62,6 +73,20 @@ class C09(Prop):
             if not usable:
                 res.label("example-not-usable")
                 return res
+        elif "reader" in case:
+            from vf.props.c07 import C07
+            nl = C07.read_source(res, case["reader"])
+            usable = nl is not None and nl.top_instance is not None
+            if usable:
+                for L in nl.libraries:
+                    for D in L.definitions:
+                        for x in list(D.children) + list(D.cables):
+                            if x.name is None or "/" in x.name:
+                                usable = False
+            if not usable:
+                res.label("reader-netlist-not-usable")
+                return res
+            res.label("reader-built-" + case["reader"]["kind"])
         else:
             B = gen_ir.build(case, policy=case.get("policy", "DEFAULT"))
             nl = B.netlist
@@ -69,6 +94,12 @@ class C09(Prop):
             pre = model.wf(nl, strict=True)
             if pre:
                 raise RuntimeError("generator produced ill-formed netlist: %r" % pre[:3])
+        if case.get("via_clone"):
+            try:
+                nl = nl.clone()
+                res.label("on-a-clone")
+            except Exception:  # noqa (C07's business)
+                pass
         ndefs = sum(len(L.definitions) for L in nl.libraries)
         try:
             U.uniquify(nl)
